@@ -524,6 +524,8 @@ def ob_il_block(w, P):
                 box['A'] = c.delete(krow)
             elif opA == 'setnew':
                 box['A'] = c.set(krow + 7, b'replacement')
+            elif opA == 'addnew':
+                box['A'] = c.add(krow + 7, b'replacement')
             elif opA == 'get_close':
                 # a lookup and then close(): closes this thread's own connection only -- the other thread's open block goes on
                 c.get(krow)
@@ -552,6 +554,10 @@ def ob_il_block(w, P):
                         raise _Stop()
                 except _Stop:
                     box['B'] = 'aborted'
+            elif opB == 'block_replace':
+                # the block replaces a file-backed value (the superseded file goes when the block commits) and completes
+                with other.transact():
+                    box['B'] = other.set(krow, b'second-file-value')
             elif opB == 'block_pop_raise':
                 # the block takes a file-backed item (its file is queued for removal at B's COMMIT) and is then abandoned
                 class _Stop2(Exception):
@@ -584,15 +590,20 @@ def ob_il_block(w, P):
     itb = T1.lookup(Cell(INT, krow + 5), Cell(INT, 1))
     if box.get('B') == 'aborted':
         x.add('C05,C06', "an aborted block left nothing (and took nothing of the other client's with it)", Not(itb.present))
-    if box.get('B') is True:
+    if box.get('B') is True and opB == 'block_replace':
+        itr = T1.lookup(Cell(INT, krow), Cell(INT, 1))
+        x.add('C05,C06', "B's replacement is there", And(itr.present, EqR(itr.c['mode'].num, 2)))
+    elif box.get('B') is True:
         x.add('C05,C06', "B's write is there", And(itb.present, EqI(itb.c['value'].cls, INT)))
     elif box.get('B') == 'timeout':
         x.add('C05,C14', "a refused block left nothing", Not(itb.present))
-    ita = T1.lookup(Cell(INT, krow + 7 if opA == 'setnew' else krow), Cell(INT, 1))
+    ita = T1.lookup(Cell(INT, krow + 7 if opA in ('setnew', 'addnew') else krow), Cell(INT, 1))
+    if opA in ('setnew', 'addnew') and box.get('A') == 'timeout':
+        x.add('C05,C14', 'a call that was refused the lock has no effect', Not(ita.present))
     if opA == 'get_close':
         x.add('C06,C05', "close() in one thread leaves the other thread's block alone", box.get('A') is True and box.get('B') in (True, 'aborted'))
     elif box.get('A') is True:
-        x.add('C05', "A's write / removal took effect", ita.present if opA in ('setf', 'setnew') else Not(ita.present))
+        x.add('C05', "A's write / removal took effect", ita.present if opA in ('setf', 'setnew', 'addnew') else Not(ita.present))
     if opB == 'block_pop_raise' and opA == 'setnew' and box.get('B') in ('aborted', 'timeout'):
         x.add('C05,C06,C07', 'the item an abandoned block had taken is still there', T1.lookup(Cell(INT, krow), Cell(INT, 1)).present)
     x.add('C05,C08', 'counters match', state.inv_table(T1))
@@ -623,6 +634,11 @@ def jobs(tier):
         out.append(dict(id='il_block.get_close.%s.thread' % b, func='ob_il_block', params=dict(N=1, a='get_close', b=b, who='thread'), tags=['C06', 'C05', 'C18'], weight=10,
                         must_reach=['both_suspended'], functions=['core.Cache._transact', 'core.Cache.transact', 'core.Cache.close', 'core.Cache.get', 'core.Cache.set', 'core.Cache.incr']))
     for who in ('thread', 'handle'):
+        out.append(dict(id='il_block.addnew.block_set.%s' % who, func='ob_il_block', params=dict(N=1, a='addnew', b='block_set', who=who), tags=['C05', 'C14', 'C08'], weight=10,
+                        must_reach=['both_suspended'], functions=['core.Cache._transact', 'core.Cache.transact', 'core.Cache.add', 'core.Cache._cull']))
+    out.append(dict(id='il_block.setnew.block_replace.thread', func='ob_il_block', params=dict(N=1, a='setnew', b='block_replace', who='thread'), tags=['C06', 'C05', 'C08'], weight=10,
+                    must_reach=['both_suspended'], functions=['core.Cache._transact', 'core.Cache.transact', 'core.Cache.set', 'core.Disk.remove']))
+    for who in ('thread', 'handle'):
         out.append(dict(id='il_block.setnew.block_pop_raise.%s' % who, func='ob_il_block', params=dict(N=1, a='setnew', b='block_pop_raise', who=who),
                         tags=['C05', 'C06', 'C07', 'C08'], weight=10, must_reach=['both_suspended', 'block_aborted'],
                         functions=['core.Cache._transact', 'core.Cache.transact', 'core.Cache.set', 'core.Cache.pop', 'core.Disk.remove']))
@@ -632,7 +648,7 @@ def jobs(tier):
                             must_reach=['interleaved'], functions=['core.Cache.%s' % a, 'core.Cache.delete', 'core.Cache.set', 'core.Cache._transact']))
     for a in ('setf', 'addf', 'pushf'):
         for b in ('delete', 'pop', 'seti'):
-            out.append(dict(id='store_vs_prune.%s.%s' % (a, b), func='ob_store_vs_prune', params=dict(N=1, a=a, b=b), tags=['C05', 'C01', 'C08'], weight=6,
+            out.append(dict(id='store_vs_prune.%s.%s' % (a, b), func='ob_store_vs_prune', params=dict(N=1, a=a, b=b), tags=['C05', 'C01', 'C08'] + (['C10', 'C11'] if a == 'pushf' else []), weight=6,
                             must_reach=['between_file_operations'], functions=['core.Disk.store', 'core.Disk._write', 'core.Disk.remove', 'core.Disk.filename', 'core.Cache.set', 'core.Cache.delete']))
     Ns = [1] if tier == 'quick' else [1, 2]
     writers = ['set', 'add', 'incr', 'pop', 'delete', 'touch']
